@@ -197,3 +197,89 @@ class MatrixCut:
             else:
                 setattr(cls, "from_Matrix", old)
         return False
+
+
+# ---- group element inputs ---------------------------------------------------------------------
+
+class GIn:
+    """parameters (Vals) of one group element on its chart + oracle knowledge"""
+
+    def __init__(self, params, aux, lats=()):
+        self.params = params
+        self.aux = aux
+        self.lats = list(lats)
+
+
+def _so3_input(ctx, rep, tag, sign=1, free=False):
+    """rep in Quat, Mrp, Dcm, EulerB321.  aux['R'] = oracle rotation matrix where it is cheap."""
+    if rep == "Quat":
+        if free:
+            q = [Val.var(f"q{tag}{i}") for i in range(4)]
+            return GIn(q, {"q": q})
+        u = [Val.var(f"u{tag}{i}") for i in range(3)]
+        q = s3_chart(u[0], u[1], u[2], sign)
+        return GIn(q, {"q": q, "R": quat_to_R(q)})
+    if rep == "Mrp":
+        r = [Val.var(f"r{tag}{i}") for i in range(3)]
+        return GIn(r, {"r": r})
+    if rep == "Dcm":
+        u = [Val.var(f"u{tag}{i}") for i in range(3)]
+        q = s3_chart(u[0], u[1], u[2], sign)
+        R = quat_to_R(q)
+        return GIn(V.vec(R), {"R": R, "q": q})
+    if rep == "EulerB321":
+        lats = []
+        ang = []
+        sc = []
+        from .oracles import PI_TAN_BAND
+        for nm in ("psi", "theta", "phi"):
+            L = Lattice(ctx, f"{nm}{tag}", "half", positive=False)
+            lats.append(L)
+            ang.append(L.th)
+            sc.append((L.s, L.c))
+        th = lats[1]
+        pi = ctx.pi()
+        band = Val.const(Fraction(1, 1000) + Fraction(1, 10 ** 9))  # code compares with double pi/2
+        ctx.assume(V.le(th.th, pi / 2 - band), V.ge(th.th, -(pi / 2 - band)))
+        ctx.assume(V.le(th.u, Val.const(PI_TAN_BAND)), V.ge(th.u, Val.const(-PI_TAN_BAND)))
+        th.A1.flags |= {"asin", "atan"}
+        from .oracles import rotx, roty, rotz
+        R = V.mat_mul(V.mat_mul(rotz(*sc[0]), roty(*sc[1])), rotx(*sc[2]))
+        return GIn(ang, {"R": R, "angles": ang, "sc": sc}, lats)
+    raise KeyError(rep)
+
+
+def group_input(ctx: Ctx, gname: str, tag="", sign=1, free_quat=False) -> GIn:
+    fam = family(gname)
+    if fam == "SO2":
+        L = Lattice(ctx, f"th{tag}", "half", positive=False)
+        return GIn([L.th], {"th": L.th, "s": L.s, "c": L.c}, [L])
+    if fam == "SE2":
+        L = Lattice(ctx, f"th{tag}", "half", positive=False)
+        p = [Val.var(f"x{tag}"), Val.var(f"y{tag}")]
+        return GIn(p + [L.th], {"th": L.th, "s": L.s, "c": L.c, "p": p}, [L])
+    if fam in ("R2", "R3"):
+        n = int(fam[1])
+        p = [Val.var(f"x{tag}{i}") for i in range(n)]
+        return GIn(p, {"p": p})
+    rep = so3_of(gname)[3:]
+    g = _so3_input(ctx, rep, tag, sign, free_quat)
+    if fam == "SO3":
+        return g
+    if fam == "SE3":
+        p = [Val.var(f"p{tag}{i}") for i in range(3)]
+        aux = dict(g.aux)
+        aux["p"] = p
+        return GIn(p + g.params, aux, g.lats)
+    if fam == "SE23":
+        p = [Val.var(f"p{tag}{i}") for i in range(3)]
+        v = [Val.var(f"v{tag}{i}") for i in range(3)]
+        aux = dict(g.aux)
+        aux["p"] = p
+        aux["v"] = v
+        return GIn(p + v + g.params, aux, g.lats)
+    raise KeyError(gname)
+
+
+def n_grp(gname):
+    return groups()[gname].n_param
